@@ -88,33 +88,38 @@ Record state : Type := mkState {
   pacc : list N;
   depth : nat;                (* current subroutine nesting *)
   hw : nat;                   (* instrumentation: high-water mark of the operand stack *)
-  dhw : nat                   (* instrumentation: high-water mark of the nesting depth *)
+  dhw : nat;                  (* instrumentation: high-water mark of the nesting depth *)
+  nsteps : N                  (* instrumentation: operands and operators executed so far *)
 }.
 
 Definition init_state : state :=
-  mkState [] (repeat None t2_trans_len) false None true [] [] [] 0 0 false 0 false [] 0 0 0.
+  mkState [] (repeat None t2_trans_len) false None true [] [] [] 0 0 false 0 false [] 0 0 0 0.
 
 Definition with_stk (s : list Z) (st : state) : state :=
   mkState s (trans st) (wset st) (width st) (hopen st) (hs st) (vs st) (cmds st) (px st) (py st)
-          (moved st) (pend st) (pkind st) (pacc st) (depth st) (Nat.max (hw st) (length s)) (dhw st).
+          (moved st) (pend st) (pkind st) (pacc st) (depth st) (Nat.max (hw st) (length s)) (dhw st) (nsteps st).
 Definition with_trans (t : list (option Z)) (st : state) : state :=
   mkState (stk st) t (wset st) (width st) (hopen st) (hs st) (vs st) (cmds st) (px st) (py st)
-          (moved st) (pend st) (pkind st) (pacc st) (depth st) (hw st) (dhw st).
+          (moved st) (pend st) (pkind st) (pacc st) (depth st) (hw st) (dhw st) (nsteps st).
 Definition with_width (w : option Z) (st : state) : state :=
   mkState (stk st) (trans st) true w (hopen st) (hs st) (vs st) (cmds st) (px st) (py st)
-          (moved st) (pend st) (pkind st) (pacc st) (depth st) (hw st) (dhw st).
+          (moved st) (pend st) (pkind st) (pacc st) (depth st) (hw st) (dhw st) (nsteps st).
 Definition with_hints (o : bool) (h v : list Z) (st : state) : state :=
   mkState (stk st) (trans st) (wset st) (width st) o h v (cmds st) (px st) (py st)
-          (moved st) (pend st) (pkind st) (pacc st) (depth st) (hw st) (dhw st).
+          (moved st) (pend st) (pkind st) (pacc st) (depth st) (hw st) (dhw st) (nsteps st).
 Definition with_path (c : list cmd) (x y : Z) (m : bool) (st : state) : state :=
   mkState (stk st) (trans st) (wset st) (width st) (hopen st) (hs st) (vs st) c x y
-          m (pend st) (pkind st) (pacc st) (depth st) (hw st) (dhw st).
+          m (pend st) (pkind st) (pacc st) (depth st) (hw st) (dhw st) (nsteps st).
 Definition with_pend (p : nat) (k : bool) (a : list N) (st : state) : state :=
   mkState (stk st) (trans st) (wset st) (width st) (hopen st) (hs st) (vs st) (cmds st) (px st) (py st)
-          (moved st) p k a (depth st) (hw st) (dhw st).
+          (moved st) p k a (depth st) (hw st) (dhw st) (nsteps st).
 Definition with_depth (d : nat) (st : state) : state :=
   mkState (stk st) (trans st) (wset st) (width st) (hopen st) (hs st) (vs st) (cmds st) (px st) (py st)
-          (moved st) (pend st) (pkind st) (pacc st) d (hw st) (Nat.max (dhw st) d).
+          (moved st) (pend st) (pkind st) (pacc st) d (hw st) (Nat.max (dhw st) d) (nsteps st).
+
+Definition tick (st : state) : state :=
+  mkState (stk st) (trans st) (wset st) (width st) (hopen st) (hs st) (vs st) (cmds st) (px st) (py st)
+          (moved st) (pend st) (pkind st) (pacc st) (depth st) (hw st) (dhw st) (nsteps st + 1)%N.
 
 (* operands in the order they were pushed (bottom of the stack first) *)
 Definition args (st : state) : list Z := rev (stk st).
@@ -520,6 +525,10 @@ Definition lookup (t : subrtab) (biased : Z) : option (list N) :=
   let idx := biased + subr_bias (t_size t) in
   if (0 <=? idx) && (idx <? t_size t) then Some (assoc_z idx (t_special t) (t_default t)) else None.
 
+(* the longest subroutine of a table *)
+Definition tab_maxlen (t : subrtab) : nat :=
+  fold_right (fun p m => Nat.max (length (snd p)) m) (length (t_default t)) (t_special t).
+
 (* ------------------------------------------------------------------ *)
 (* The interpreter                                                     *)
 
@@ -568,6 +577,7 @@ Section GO.
       match pend st with
       | S p => go (feed_mask b p st) r
       | O =>
+        let st := tick st in          (* one more operand or operator executed *)
         if (32 <=? b)%N && (b <=? 246)%N then
           pushk ((Z.of_N b - 139) * SC) st (fun st' => go st' r)
         else if (247 <=? b)%N && (b <=? 250)%N then
@@ -742,6 +752,24 @@ Definition outcome_of (dflt nom : Z) (r : res) : outcome :=
    nominal widths (scaled) and the local and global subroutine tables *)
 Definition S_t2 (dflt nom : Z) (subrs gsubrs : subrtab) (code : list N) : outcome :=
   outcome_of dflt nom (exec subrs gsubrs t2_fuel init_state code).
+
+(* The only bound the format gives on the work for one glyph: every operand or
+   operator of a segment may be a call, calls nest 10 deep, so a charstring of
+   L bytes with subroutines of at most M bytes executes at most L*(M+1)^10
+   operands and operators - exponential in the nesting depth (theorem
+   t2_steps_bound; the bound is attained up to a constant, see Examples). *)
+Definition t2_step_bound (subrs gsubrs : subrtab) (code : list N) : N :=
+  (N.of_nat (length code) *
+   (N.of_nat (Nat.max (tab_maxlen subrs) (tab_maxlen gsubrs)) + 1) ^ N.of_nat t2_max_depth)%N.
+
+Definition final_state (r : res) : option state :=
+  match r with
+  | RDone st | RRet st | RFell st | RErr _ st | RUnspec st => Some st
+  | RFuel => None
+  end.
+
+Definition final_steps (r : res) : N :=
+  match final_state r with Some st => nsteps st | None => 0%N end.
 
 Definition S_t2_state (subrs gsubrs : subrtab) (code : list N) : res :=
   exec subrs gsubrs t2_fuel init_state code.
